@@ -101,13 +101,15 @@ structure Fixes where
   /-- not a repair but the shape of `programExecutor.rollback`: it refunds `pe.usage.StorageRevenue`, the
   bucket the budget really holds (`false`: it refunds `pe.cost.Storage`, the announced FailureRefund) -/
   rollbackRefundsUsage : Bool := true
+  /-- renewal / formation handlers reject a proof window end that the contract store cannot hold (≥ 2^63) -/
+  windowEndFits : Bool := false
 deriving DecidableEq, Repr
 
 /-- every repair applied -/
 def Fixes.all : Fixes :=
   { pdOverflow := true, unlockKeyMin := true, readSector := true, readOffset := true, dropSectors := true,
     v2Roots := true, v2Read := true, v2WriteUpdateProof := true, v2FormKeyLen := true, revisionSum := true,
-    regRecorder := true, fundCost := true }
+    regRecorder := true, fundCost := true, windowEndFits := true }
 
 /-- the pinned snapshot: nothing repaired -/
 def Fixes.none : Fixes := {}
@@ -135,6 +137,7 @@ def Fixes.enable (f : Fixes) (name : String) : Option Fixes :=
   | "8" | "v2FormKeyLen" => some { f with v2FormKeyLen := true }
   | "9" | "regRecorder" => some { f with regRecorder := true }
   | "10" | "fundCost" => some { f with fundCost := true }
+  | "11" | "windowEndFits" => some { f with windowEndFits := true }
   | "refundAnnounced" => some { f with rollbackRefundsUsage := false }   -- model of the variant that refunds cost.Storage
   | "revisionSum" => some { f with revisionSum := true }
   | "all" => some Fixes.all
@@ -603,6 +606,8 @@ structure PaidReq where
 
 inductive POut where
   | accept | reject | panic (s : Site)
+  /-- the request was answered with an error AFTER the host had broadcast its transaction set -/
+  | rejectBroadcast
 deriving DecidableEq, Repr
 
 /-- `processPayment`/`processFundAccountPayment` up to the creation of the budget -/
@@ -691,6 +696,9 @@ structure RenewReq where
   rsigLen : Nat := 64          -- len(RevisionSignature.Signature)
   rsigOk : Bool := true        -- it verifies
   poolOk : Bool := true        -- the transaction set enters the pool
+  /-- WindowEnd of the new contract is below 2^63: `contracts.RenewContract` / `AddContract` can store it
+  (database/sql refuses uint64 values with the high bit set) -/
+  storable : Bool := true
 
 /-- `ValidateClearingRevision` on a revision with `v` valid and `m` missed outputs -/
 def clearingSteps (r : RenewReq) (site : Site) : List Step :=
@@ -719,7 +727,11 @@ def revSigSteps (r : RenewReq) (site : Site) : List Step :=
     .need (decide (64 ≤ r.rsigLen)) site,
     .guard r.rsigOk ]
 
-def renew3Steps (r : RenewReq) : List Step :=
+/-- repaired handlers: the window end is checked next to the hardfork check, before anything is signed or broadcast -/
+def storableGuard (f : Fixes) (r : RenewReq) : List Step :=
+  if f.windowEndFits then [ .guard r.storable ] else []
+
+def renew3Steps (f : Fixes) (r : RenewReq) : List Step :=
   [ .guard r.readable,
     -- validRenewalTxnSet
     .guard (decide (r.txns ≠ 0)),
@@ -733,8 +745,8 @@ def renew3Steps (r : RenewReq) : List Step :=
     .slice (r.txns - 1) r.txns r.txns .handleRPCRenew,              -- TransactionSet[len-1]
     .slice 0 1 r.revs .handleRPCRenew,                              -- FileContractRevisions[0]
     .slice 0 1 r.fcs .handleRPCRenew,                               -- FileContracts[0]
-    .guard r.hardforkOk,
-    .guard r.clrKnown ] ++
+    .guard r.hardforkOk ] ++ storableGuard f r ++
+  [ .guard r.clrKnown ] ++
   clearingSteps r .handleRPCRenew ++
   [ .guard r.fsigOk, .guard r.baseOk ] ++
   contractSteps r .handleRPCRenew ++
@@ -744,7 +756,7 @@ def renew3Steps (r : RenewReq) : List Step :=
   [ .need (decide (64 ≤ r.rsigLen)) .handleRPCRenew,               -- RenterSignature conversion
     .guard r.poolOk ]
 
-def renew2Steps (r : RenewReq) : List Step :=
+def renew2Steps (f : Fixes) (r : RenewReq) : List Step :=
   [ .guard r.readable,
     -- convertToPublicKey
     .guard r.algOk, .guard (decide (r.keyLen = 32)),
@@ -754,8 +766,8 @@ def renew2Steps (r : RenewReq) : List Step :=
     .guard (decide (r.fcs = 1)),
     .slice 0 (r.txns - 1) r.txns .rpcRenewAndClearContract,
     .slice 0 1 r.fcs .rpcRenewAndClearContract,
-    .guard r.hardforkOk,
-    .guard (decide (r.clrValid = 2)) ] ++                          -- rhp.ClearingRevision: one value per output
+    .guard r.hardforkOk ] ++ storableGuard f r ++
+  [ .guard (decide (r.clrValid = 2)) ] ++                          -- rhp.ClearingRevision: one value per output
   clearingSteps { r with clrMissed := r.clrValid } .rpcRenewAndClearContract ++
   [ .guard r.baseOk ] ++
   contractSteps r .rpcRenewAndClearContract ++
@@ -778,7 +790,7 @@ def form2Steps (f : Fixes) (r : RenewReq) : List Step :=
   [ .need (decide (32 ≤ r.keyLen)) .rpcFormContract,
     .slice 0 (r.txns - 1) r.txns .rpcFormContract,
     .slice 0 1 r.fcs .rpcFormContract,
-    .guard r.hardforkOk ] ++
+    .guard r.hardforkOk ] ++ storableGuard f r ++
   contractSteps r .rpcFormContract ++
   [ .guard r.fundOk,
     .slice 0 1 r.fcs .rpcFormContract,                              -- InitialRevision
@@ -792,8 +804,8 @@ inductive RenewKind where
 deriving DecidableEq, Repr
 
 def renewSteps (f : Fixes) : RenewKind → RenewReq → List Step
-  | .renew3, r => renew3Steps r
-  | .renew2, r => renew2Steps r
+  | .renew3, r => renew3Steps f r
+  | .renew2, r => renew2Steps f r
   | .form2, r => form2Steps f r
 
 /-- revision number of a cleared contract -/
@@ -805,7 +817,10 @@ def renew (f : Fixes) (k : RenewKind) (s : HostState) (r : RenewReq) : POut × H
   match run { budget := 0 } (renewSteps f k r) with
   | .panic site => (.panic site, s)
   | .reject _ => (.reject, s)
-  | .pass _ => (.accept, if k = .form2 then s else { s with rev := MaxRevision, roots := [] })
+  | .pass _ =>
+      -- the transaction set is in the pool; now the contract store has to take the new contract
+      if r.storable then (.accept, if k = .form2 then s else { s with rev := MaxRevision, roots := [] })
+      else (.rejectBroadcast, s)
 
 /-! ## commit order of the upload-carrying handlers (C02's second engine)
 
